@@ -440,13 +440,13 @@ V("C12", "check-open-bare", "fire", (CHK, "        code = _read_file(path)\n", "
   "pre-fix: check has no latin-1 fallback", "check_file/decoding")
 V("C12", "check-filters-comments", "fire", (CHK, "tokens = lex(lexer, code, False)", "tokens = lex(lexer, code, True)"), "nocl marker invisible to check", "lex-filter")
 V("C12", "check-file-arg-not-excluded", "fire", (CHK, "            if is_excluded(rel_path, excludes_spec):\n                return\n", "            pass\n"),
-  "excluded file checked when named directly", "_handle_file_path/no-exclusion-test")
+  "excluded file checked when named directly", "rule=R")
 V("C12", "check-walk-not-excluded", "fire", (CHK, "                        if is_excluded(rel_path, excludes_spec):\n                            continue\n", "                        pass\n"),
-  "excluded files checked through a directory", "check_command/walk/no-exclusion-test")
+  "excluded files checked through a directory", "rule=R")
 V("C12", "check-dirs-rebound", "fire", (CHK, "                dirs[:] = [d for d in dirs if not d[0] == \".\"]", "                dirs = [d for d in dirs if not d[0] == \".\"]"),
-  "hidden directories walked by check", "check_command/dirs-pruning")
+  "hidden directories walked by check", "rule=R")
 V("C12", "check-spec-other-root", "fire", (CHK, "excludes_spec = generate_exclude_spec(Path.cwd())", "excludes_spec = generate_exclude_spec(paths[0])"),
-  "exclusion spec rooted elsewhere", "exclude-spec")
+  "exclusion spec rooted elsewhere", "rule=R")
 V("C12", "check-language-by-lexer-alias", "fire", (CHK, "lexer_name = Languages.by_name[lexer.__class__.name]", "lexer_name = Languages.by_name[lexer.__class__.aliases[0]]"),
   "language looked up by a different key", "check_file/language")
 V("C12", "format-line-plus-one", "fire", (U, "    result.append(str(measurement.start.line))", "    result.append(str(measurement.start.line + 1))"),
@@ -628,14 +628,14 @@ V("C05", "unfold-children-first", "fire", (SU, "        result.append(scope)\n  
 # ------------------------------------------------------------------ C11
 CONF = "codelimit/common/Configuration.py"
 MAIN = "codelimit/__main__.py"
-V("C11", "dirs-rebound", "fire", (SCN, "        dirs[:] = [d for d in dirs if not d[0] == \".\"]", "        dirs = [d for d in dirs if not d[0] == \".\"]"), "hidden directories are walked", "scan_path/dirs-pruning")
+V("C11", "dirs-rebound", "fire", (SCN, "        dirs[:] = [d for d in dirs if not d[0] == \".\"]", "        dirs = [d for d in dirs if not d[0] == \".\"]"), "hidden directories are walked", "rule=R")
 V("C11", "dirs-startswith-silent", "silent", (SCN, "        dirs[:] = [d for d in dirs if not d[0] == \".\"]", "        dirs[:] = [d for d in dirs if not d.startswith(\".\")]"), "same predicate")
-V("C11", "files-not-filtered", "fire", (SCN, "        files = [f for f in files if not f[0] == \".\"]\n", ""), "hidden files analysed", "files-filter")
-V("C11", "dirs-underscore-too", "fire", (SCN, "        dirs[:] = [d for d in dirs if not d[0] == \".\"]", "        dirs[:] = [d for d in dirs if not d[0] in \"._\"]"), "underscore directories pruned as well", "dirs-pruning")
+V("C11", "files-not-filtered", "fire", (SCN, "        files = [f for f in files if not f[0] == \".\"]\n", ""), "hidden files analysed", "rule=R")
+V("C11", "dirs-underscore-too", "fire", (SCN, "        dirs[:] = [d for d in dirs if not d[0] == \".\"]", "        dirs[:] = [d for d in dirs if not d[0] in \"._\"]"), "underscore directories pruned as well", "rule=R")
 V("C11", "excluded-absolute-path", "fire", (SCN, "            if is_excluded(rel_path, excludes_spec):", "            if is_excluded(Path(os.path.join(root, file)), excludes_spec):"),
-  "absolute path tested against root-relative patterns", "excluded-path")
+  "absolute path tested against root-relative patterns", "rule=R")
 V("C11", "exclusion-after-analysis", "fire", (SCN, "            if is_excluded(rel_path, excludes_spec):\n                continue\n            try:", "            try:"),
-  "excluded files analysed", "no-exclusion-test")
+  "excluded files analysed", "rule=R")
 V("C11", "spec-without-gitignore", "fire", (SCN, "    if gitignore_excludes:\n        excludes.extend(gitignore_excludes)\n", ""), ".gitignore ignored", "missing-the root .gitignore")
 V("C11", "spec-without-config", "fire", (SCN, "    excludes.extend(Configuration.exclude)\n", ""), "configured exclusions ignored", "missing-Configuration.exclude")
 V("C11", "spec-gitignore-from-cwd", "fire", (SCN, "    gitignore_excludes = _read_gitignore(root)", "    gitignore_excludes = _read_gitignore(Path.cwd())"), ".gitignore of the working directory used", "gitignore-root")
@@ -644,7 +644,7 @@ V("C11", "cli-exclude-replaces", "fire", (MAIN, "    if exclude:\n        Config
   "rebinding instead of accumulating", "exclude-rebound")
 V("C11", "entry-key-absolute", "fire", (SCN, "    rel_path = relpath(path, root)\n    cached_entry = None", "    rel_path = path\n    cached_entry = None"), "files keyed by absolute path", "_scan_file")
 V("C11", "checksum-of-name", "fire", (SCN, "    checksum = calculate_checksum(path)\n", "    checksum = calculate_checksum(path) if False else str(hash(path))\n"), "checksum not of the bytes", "checksum")
-V("C11", "is-excluded-negated", "fire", (SCN, "    return spec.match_file(path)", "    return not spec.match_file(path)"), "selection inverted", "is_excluded/definition")
+V("C11", "is-excluded-negated", "fire", (SCN, "    return spec.match_file(path)", "    return not spec.match_file(path)"), "selection inverted", "rule=R")
 V("C11", "new-caller-of-analyze", "fire", (SCN, "def generate_exclude_spec(root: Path) -> PathSpec:", "def analyze_one(path, lexer):\n    return _analyze_file(path, path, calculate_checksum(path), lexer)\n\n\ndef generate_exclude_spec(root: Path) -> PathSpec:"),
   "analysis reachable outside the guards", "_analyze_file<-")
 V("C01", "block-end-inclusive", "fire", (SU, "TokenRange(bt[0], bt[1] + 1)", "TokenRange(bt[0], bt[1])"), "closing brace outside the block: spans end one token early", "get_blocks/exclusive-end")
